@@ -164,7 +164,10 @@ def run_history(ctx: Ctx, P, M, ops):
                 _, tensors, ins, agg, chunk = op
                 if sig(op) not in objs:
                     objs[sig(op)] = Recording(Scheduled([make_agg(a, jac_dtype(ts, ins, dtype)) for a in sched[sig(op)]]), sink)
-                backward([ts[i] for i in tensors], objs[sig(op)], inputs=[ts[i] for i in ins],
+                # every third call lists its first input TWICE (tied modules: `[*l1.parameters(), *l2.parameters()]`): one tensor,
+                # one deposit
+                real_ins = [ts[i] for i in ins] + ([ts[ins[0]]] if step % 3 == 0 and ins else [])
+                backward([ts[i] for i in tensors], objs[sig(op)], inputs=real_ins,
                          retain_graph=True, parallel_chunk_size=chunk)
             elif op[0] == "mtl":
                 _, losses, feats, tasks, shared, agg, chunk = op
@@ -301,6 +304,39 @@ def low_precision_accumulators(ctx: Ctx):
             return
 
 
+def tracked_accumulator(ctx: Ctx):
+    """an existing .grad that autograd tracks (a NON-LEAF tensor requiring grad: the result of a differentiable computation
+    stored in .grad, e.g. a meta-gradient): the call adds to THAT tensor, in place — a reference kept by the user sees the sum"""
+    rng = ctx.rng
+    n = rng.randint(2, 4)
+    p = torch.tensor([float(rng.randint(-3, 3)) for _ in range(n)], dtype=torch.float64, requires_grad=True)
+    q = torch.tensor([float(rng.randint(-3, 3)) for _ in range(n)], dtype=torch.float64, requires_grad=True)
+    c = [[rng.randint(-3, 3) for _ in range(n)] for _ in range(2)]
+    w = [rng.randint(1, 3), rng.randint(-2, 3)]
+    y = torch.stack([(p * torch.tensor(c[0], dtype=torch.float64)).sum(), (p * torch.tensor(c[1], dtype=torch.float64)).sum()])
+    old = q * 2.0                      # non-leaf, requires grad
+    p.grad = old
+    exp = old.detach().clone()
+    upd = torch.tensor([float(w[0] * c[0][j] + w[1] * c[1][j]) for j in range(n)], dtype=torch.float64)
+    rp = {"scenario": "tracked accumulator", "c": c, "w": w}
+    ctx.case(("tracked", str(c), str(w)), nontrivial=True)
+    ctx.count("tracked_accumulators")
+    for k in range(rng.randint(1, 3)):
+        try:
+            backward(y, Constant(torch.tensor([float(v) for v in w], dtype=torch.float64)), inputs=[p], retain_graph=True)
+        except Exception as e:  # noqa: BLE001
+            ctx.violation(f"backward raised {type(e).__name__}: {e} on a parameter whose .grad is a tracked non-leaf tensor", rp)
+            return
+        exp = exp + upd
+        if p.grad is not old:
+            ctx.violation("the existing .grad (a tensor tracked by autograd) was REPLACED by a new tensor instead of being added to: "
+                          f"a reference kept to it still holds {old.detach().tolist()} while p.grad holds {p.grad.detach().tolist()}", rp)
+            return
+        if not torch.equal(p.grad.detach(), exp):
+            ctx.violation(f"call {k + 1}: tracked .grad is {p.grad.detach().tolist()}, old + update is {exp.tolist()}", rp)
+            return
+
+
 def main(ctx: Ctx):
     ctx.lean_gate()
     n = 200 if ctx.tier == "quick" else 30000
@@ -318,6 +354,8 @@ def main(ctx: Ctx):
         ctx.count("calls_in_history", sum(1 for o in ops if o[0] in ("backward", "mtl")))
         if i % 8 == 0:
             low_precision_accumulators(ctx)
+        if i % 16 == 0:
+            tracked_accumulator(ctx)
     return ctx.finish(
         rule="histories of 1-6 operations (backward / mtl_backward with retain_graph=True incl. repeated identical "
              "calls through ONE stateful aggregator object, .grad.zero_(), .grad=None, in-place edits, two parameters sharing one "
